@@ -22,7 +22,7 @@ func init() {
 				Rule: fmt.Sprintf("all histories of depth <= %d (depth %d over a reduced alphabet in the thorough tier) on one connection of the full reference server (real loader, Start handler, ASCII/PAP handlers, bcrypt, stringy, local accounter) over an alphabet of ~85 abstract packets: "+
 					"ASCII START (user empty/known/unknown), PAP START (good/bad/empty password), unrouted STARTs, CONTINUE (user, password, junk, empty, abort), command and session authorization (permitted/denied/other user), accounting (start/stop/watchdog/invalid flags), "+
 					"undecodable bodies per type, trailing garbage, each on session A or B; sequence choices {expected, same, lower, even, jump, 255} on three kinds; rejected forms (invalid version, type, sequence 0, length 65537, wrong key). "+
-					"Configurations: keychain-backed user with a working and with a failing keychain; and all histories of depth <= 2 over ~110 packets aimed at the odd user/authenticator/accounter/policy shapes of the C14 configurations under three keychain behaviours. Oracle per request, from the connection-loop model: accepted => exactly one handler invocation and exactly one packet "+
+					"Plus all histories of depth <= 3 over 12 packets mixing ordinary requests with user names, messages and arguments outside US-ASCII (well-formed UTF-8 and not) on every AAA path. Configurations: keychain-backed user with a working and with a failing keychain; and all histories of depth <= 2 over ~110 packets aimed at the odd user/authenticator/accounter/policy shapes of the C14 configurations under three keychain behaviours. Oracle per request, from the connection-loop model: accepted => exactly one handler invocation and exactly one packet "+
 					"(none iff numbered 255) before the next read, connection stays open; rejected => no handler invocation, at most one packet, connection closed. states = distinct loop-model states, transitions = packets delivered", d, d),
 				Assumptions: []string{"accept/reject is decided by mc/ref/connmodel.go; the only handler-dependent input of the model is whether the invoked handler registered a continuation (observed through a wrapping Response)",
 					"for bodies in the indeterminate key-mismatch class either complete behaviour is accepted (C19 owns that boundary)"}}
@@ -214,6 +214,16 @@ func c07Run(c *Ctx) {
 	depth := 3
 	eOK := newREnv(defaultSecrets(), "ok")
 	rExplore(c, eOK, c07Alphabet(eOK, false), depth, false, "s1", step, nil)
+	// names and messages outside US-ASCII (well-formed UTF-8 and not), on every AAA path, mixed with ordinary packets
+	{
+		utf := "j\xc3\xb6rg"
+		small := []rPkt{{Kind: "ascii", User: ""}, {Kind: "cont", Msg: "own"}, {Kind: "author", User: "own", Args: []string{"service=shell", "cmd=show"}},
+			{Kind: "author", User: utf, Args: []string{"service=shell", "cmd=show"}}, {Kind: "author", User: utf, Args: []string{"service=ppp", "protocol=ip"}},
+			{Kind: "acct", User: utf, Flags: 2}, {Kind: "pap", User: utf, Pw: "x"}, {Kind: "ascii", User: utf}, {Kind: "cont", Msg: utf},
+			{Kind: "author", User: "own\xff", Args: []string{"service=shell", "cmd=show"}}, {Kind: "acct", User: "\xfe", Flags: 4},
+			{Kind: "author", User: "own", Args: []string{"service=shell", "cmd=sh\xc3\xb6w"}}}
+		rExplore(c, eOK, small, 3, false, "s1", step, nil)
+	}
 	eErr := newREnv(defaultSecrets(), "err")
 	rExplore(c, eErr, c07Alphabet(eErr, true), depth, false, "s1", step, nil)
 	// every AAA path of the odd user/authenticator/accounter/policy shapes (the C14 configurations), depth 2
